@@ -345,6 +345,8 @@ struct Engine {
   // Seeds s with equal s / schedules_per_program() share the program and differ in schedule only.
   virtual uint64_t schedules_per_program() const { return 1; }
   virtual bool uses_buggify() const { return false; }
+  // true: schedule indexes >= 2 of a program enumerate a grid of double preemptions (see main.cpp) instead of sampling strategies
+  virtual bool systematic_sweep() const { return false; }
   // Optional engine-specific argument simplification for the minimiser.
   virtual std::vector<Case> simplify(const Case&) { return {}; }
   // Minimiser support: may thread index t (0-based in Case.threads) be removed? Fix up references.
@@ -352,6 +354,7 @@ struct Engine {
   virtual bool remove_op(Case& c, size_t t, size_t i);
   // weighted hook counts per sim thread id measured on the sequential schedule of this program
   std::vector<uint32_t> measured;
+  std::vector<uint32_t> measured_op0;  // hooks of each thread's operation 0 on the sequential schedule
   bool has_measured = false;
   const std::vector<uint32_t>* measured_ptr() const { return has_measured ? &measured : nullptr; }
 };
